@@ -1,6 +1,6 @@
 ----------------------------- MODULE SpoolTrace -----------------------------
 (* Trace validation for Spool.tla (C10).  Events: Cfg, Accept, Scan, Hand + Delivered (one
-   attempt), Restart, End.  Same scheme as QueueTrace (C_Step / M_Step / verdict at End). *)
+   attempt), Restart (crash = the stop was abrupt and came before the first attempt), End.  Same scheme as QueueTrace (C_Step / M_Step / verdict at End). *)
 EXTENDS Spool, SequencesExt
 
 Trace == ndJsonDeserialize("trace.ndjson")
@@ -43,7 +43,7 @@ C_Attempt ==
        /\ Ev.m = src.m /\ ToSet(Ev.rcpts) = src.pending
   /\ Attempt(ToSet(Trace[l + 1].d), ToSet(Trace[l + 1].p))
   /\ l' = l + 2
-C_Restart == IsEv("Restart") /\ Restart /\ l' = l + 1
+C_Restart == IsEv("Restart") /\ (IF Ev.crash THEN CrashRestart ELSE Restart) /\ l' = l + 1
 C_End == IsEv("End") /\ phase = "done" /\ Emit /\ l' = l + 1
 
 Conform == C_Accept \/ C_AcceptRefused \/ C_Scan \/ C_Attempt \/ C_Restart \/ C_End
